@@ -35,3 +35,14 @@ Definition run_cases (f : sexp -> sexp -> verdict) (input : string) : string :=
 Definition cmp_sexp (model rust : sexp) : verdict :=
   let m := show model in let r := show rust in
   if String.eqb m r then VOk "" else VDiff m r.
+
+(* relay of verdicts computed on the harness side (process-level observations the model cannot make:
+   fresh processes, native execution, crashes): (ok tag…) | (viol "what") | (skip "why") *)
+Definition relay_case (_ r : sexp) : verdict :=
+  match r with
+  | L (A "ok" :: tags) => VOk (String.concat " " (map (fun t => match t with A s => s | Q s => s | _ => "" end) tags))
+  | L [A "viol"; Q w] => VViol w
+  | L [A "skip"; Q w] => VSkip w
+  | _ => VBad "not a relayed verdict"
+  end.
+Definition run_relay : string -> string := run_cases relay_case.
